@@ -15,8 +15,9 @@ TECHNIQUE = ('exhaustive lattice enumeration: shapes with n_k in m..m+2 x target
              'sampler seeds x value patterns, conditioning guard computed from the true interface matrices, dense comparison')
 LEVEL_TEXT = ('every configuration of the bounded product is run through sample_tt -> svd_incomplete on the real code and the '
               'result is compared with the dense target; ill-conditioned sample sets (measured on the true left/right '
-              'interface matrices at the sampled prefixes/suffixes) are counted as skipped and never failed')
-LEVEL_NOTE = ('bounded: d <= 4, rho <= 3, m <= rho+2, n <= m+2, seeds 0..4; "almost all tensors" is covered at the catalogue '
+              'interface matrices at the sampled prefixes/suffixes) are counted as skipped and never failed; a sample set that lacks the advertised '
+              'layout or repeats a prefix although every mode size is >= m is a violation, not a skip')
+LEVEL_NOTE = ('bounded: d <= 4 (6 thorough), rho <= 3 (5 thorough), non-uniform rank profiles from a catalogue, m <= rho+2, n <= m+2, sampler seeds 0..2 (0..9 thorough), long trains to d = 70; "almost all tensors" is covered at the catalogue '
               'points only (one generic pattern per VERIF_SEED + an integer pattern); tolerance 1e-8 relative')
 RULE = ('cases = product(d, rho, m, shape in {m..m+2}^d (corner shapes for d=4), cap, sampler seed, pattern); non-trivial: '
         'the conditioning guard passed and the cap is >= rho so that recovery is claimed; distinct = the configuration.')
@@ -29,7 +30,8 @@ def check(c):
     seed = c.get('seed', 0)
     shape, rho, m = c['shape'], c['rho'], c['m']
     d = len(shape)
-    cores = space.tt(shape, [1] + [rho] * (d - 1) + [1], c['pat'] if c['pat'] != 'stab' else 'gen', seed, tag=81)
+    prof = c.get('ranks') or [1] + [rho] * (d - 1) + [1]            # non-uniform profiles: rho is their maximum
+    cores = space.tt(shape, prof, c['pat'] if c['pat'] != 'stab' else 'gen', seed, tag=81)
     if c['pat'] == 'stab':          # identity slices plus a perturbation: interface vectors stay O(1) along very long trains
         cores = [0.3 * G + np.eye(G.shape[0], G.shape[2])[:, None, :] for G in cores]
     long_ = bool(c.get('long'))
@@ -60,7 +62,8 @@ def check(c):
                 pre = blk[:len1 * len2:len2, :k]
                 L = np.array([_left(cores, p) for p in pre])
                 s = np.linalg.svd(L, compute_uv=False)
-                ok = ok and len(s) >= rho and L.shape[0] >= rho and s[rho - 1] >= 1e-4 * s[0] and s[rho - 1] > (1e-6 if not long_ else 1e-200) and np.linalg.matrix_rank(L) == min(L.shape[1], rho)
+                rl = prof[k]
+                ok = ok and len(s) >= rl and L.shape[0] >= rl and s[rl - 1] >= 1e-4 * s[0] and s[rl - 1] > (1e-6 if not long_ else 1e-200) and np.linalg.matrix_rank(L) == min(L.shape[1], rl)
                 if len({tuple(p) for p in pre}) != len(pre):
                     # with every mode size >= m the Latin-hypercube prefixes are distinct by construction: a repeated prefix is a defect of the
                     # sampler, not an ill-conditioned input to be excused
@@ -71,7 +74,8 @@ def check(c):
                 suf = blk[:len2, k + 1:]
                 R = np.array([_right(cores, q, k + 1) for q in suf])
                 s = np.linalg.svd(R, compute_uv=False)
-                ok = ok and R.shape[0] >= rho and len(s) >= rho and s[rho - 1] >= 1e-4 * s[0] and s[rho - 1] > (1e-6 if not long_ else 1e-200)
+                rr = prof[k + 1]
+                ok = ok and R.shape[0] >= rr and len(s) >= rr and s[rr - 1] >= 1e-4 * s[0] and s[rr - 1] > (1e-6 if not long_ else 1e-200)
                 if len({tuple(q) for q in suf}) != len(suf):
                     if min(shape) >= m:
                         res.fail('samples.distinct', dict(c, gseeds=[gs], mode=k), 'mode %d: repeated suffix among the %d sampled suffixes' % (k, len(suf)), tags + ['layout'])
@@ -79,7 +83,7 @@ def check(c):
         # true TT-ranks must be rho (otherwise the generating cores are not minimal)
         for k in range(1, d if not long_ else 1):
             sv = ref.unfold_sv(T, k)
-            ok = ok and len(sv) >= rho and sv[rho - 1] > 1e-4 * sv[0] and (len(sv) == rho or sv[rho] < 1e-10 * sv[0])
+            ok = ok and len(sv) >= prof[k] and sv[prof[k] - 1] > 1e-4 * sv[0] and (len(sv) == prof[k] or sv[prof[k]] < 1e-10 * sv[0])
         for cap in c['caps']:
             res.ev()
             case = dict(c, gseeds=[gs], caps=[cap])
@@ -166,11 +170,27 @@ def strata(tier, seed):
                 for sh in shapes:
                     for pat in ('gen', 'intA'):
                         cs.append(dict(shape=sh, rho=rho, m=m, pat=pat, caps=[rho, float(rho), rho + 1, float(rho + 1), 1e12] + ([max(1, rho - 1)] if rho > 1 else []),
-                                       gseeds=[0, 1, 2, 3, 4] if tier != 'quick' else [0, 1, 2], seed=seed))
+                                       gseeds=list(range(10)) if tier != 'quick' else [0, 1, 2], seed=seed))
     # a Generator object as seed; modes large enough that n_k * m exceeds 255; trains so long that a product of mode sizes
     # exceeds 2^63 (no dense tensor exists: the comparison runs through TT inner products)
     for sh, rho, m in (([4, 5, 6], 2, 3), ([5, 5], 2, 2), ([3, 4, 3, 4], 2, 2)):
         cs.append(dict(shape=sh, rho=rho, m=m, pat='gen', caps=[rho, 1e12], gseeds=['gen:5', 'gen:6'], seed=seed))
+    # non-uniform rank profiles (a rank-1 bond next to higher ones, growing and shrinking profiles)
+    for sh, prof in (([3, 4, 3], [1, 1, 2, 1]), ([3, 4, 3], [1, 2, 1, 1]), ([4, 4, 4, 4], [1, 2, 3, 2, 1]), ([4, 4, 4, 4], [1, 3, 1, 3, 1]), ([3, 3, 3, 3], [1, 1, 2, 3, 1]),
+                     ([4, 5, 4], [1, 3, 2, 1]), ([5, 4, 5], [1, 2, 3, 1])):
+        rmax = max(prof)
+        for m in ((rmax, rmax + 1) if tier == 'quick' else (rmax, rmax + 1, rmax + 2)):
+            if min(sh) >= m:
+                cs.append(dict(shape=sh, rho=rmax, ranks=prof, m=m, pat='gen', caps=[rmax, float(rmax), 1e12], gseeds=[0, 1, 2] if tier == 'quick' else list(range(8)), seed=seed))
+    if tier != 'quick':
+        for d in (5, 6):
+            for rho in (1, 2, 3):
+                for m in (rho, rho + 1):
+                    for sh in ([m + 1] * d, [m + (j % 3) for j in range(d)]):
+                        cs.append(dict(shape=sh, rho=rho, m=m, pat='gen', caps=[rho, 1e12], gseeds=[0, 1, 2], seed=seed))
+        for rho in (4, 5):
+            for sh in ([rho + 1] * 3, [rho, rho + 2, rho + 1], [rho + 2] * 2):
+                cs.append(dict(shape=sh, rho=rho, m=rho, pat='gen', caps=[rho, rho + 1, 1e12], gseeds=[0, 1, 2, 3], seed=seed))
     for sh, rho, m in (([40, 50, 60], 2, 5), ([64, 64], 3, 4), ([12, 100], 2, 3), ([300, 7], 2, 2)):
         cs.append(dict(shape=sh, rho=rho, m=m, pat='gen', caps=[1e12], gseeds=[0], seed=seed))
     for n, dd in ((4, 34), (10, 21), (2, 70)):
